@@ -6,7 +6,7 @@
 (* did.  Every event must be the Codec action of that name; the logged     *)
 (* observation is compared with the specified outcome (Norm, hash          *)
 (* invariance, byte stability, determinism, hash sensitivity).  All        *)
-(* disagreements are collected in mism and printed by the postcondition;   *)
+(* disagreements are collected in mism and printed as they are met;         *)
 (* after a disagreement the rest of that trace is skipped (the real object *)
 (* and the specified one have diverged).                                   *)
 (***************************************************************************)
@@ -31,7 +31,10 @@ TraceInit ==
     /\ obs = NoObs /\ hist = <<>>
     /\ l = 1 /\ alive = FALSE /\ mism = <<>>
 
-Flag(what) == mism' = Append(mism, <<l, what>>) /\ alive' = FALSE
+FlagW(what, want) ==
+    /\ PrintT("@@" \o ToJson([line |-> l, what |-> what, want |-> want]))
+    /\ mism' = Append(mism, <<l, what>>) /\ alive' = FALSE
+Flag(what) == FlagW(what, <<>>)
 Fine == UNCHANGED mism /\ alive' = TRUE
 
 InDomain(t, sh) == Len(sh) = N(t) /\ \A i \in 1..N(t) : sh[i] \in FieldDoms(t)[i]
@@ -63,7 +66,7 @@ TDec ==
     /\ Decode(Ev.codec, Ev.loc)
     /\ l' = l + 1
     /\ IF Ev.obs.err # "ok" THEN Flag("dec-" \o Ev.obs.err)
-       ELSE IF Ev.obs.shape # shape' THEN Flag("class-mismatch")
+       ELSE IF Ev.obs.shape # shape' THEN FlagW("class-mismatch", shape')
        ELSE IF ~Ev.obs.valsEqual THEN Flag("value-changed")
        ELSE IF ~Ev.obs.hashSame THEN Flag("hash-changed")
        ELSE IF obs'.exp.bytesStable /\ ~Ev.obs.bytesStable THEN Flag("bytes-unstable")
@@ -95,6 +98,5 @@ TraceNormPreservesIdentity == alive => NormPreservesIdentity
 
 \* the whole trace was consumed; print every disagreement for the checker
 TraceAccepted ==
-    /\ PrintT("@@" \o ToJson([mism |-> mism]))
-    /\ TLCGet("stats").diameter - 1 = Len(Trace)
+    TLCGet("stats").diameter - 1 = Len(Trace)
 =============================================================================
